@@ -2,6 +2,7 @@ package scen
 
 import (
 	res "github.com/jirenius/go-res"
+	"github.com/jirenius/go-res/logger"
 
 	"fmt"
 
@@ -279,6 +280,42 @@ func init() {
 				vsched.Emit(Mon, fmt.Sprintf("serve.ret err=%v", err))
 				vsched.Send(sdone, struct{}{})
 			})
+			vsched.Recv(sdone)
+			vsched.AwaitQuiescence()
+		}, sp
+	}})
+}
+
+func init() {
+	// L1: loggers used from several threads at once (C16).
+	reg(&Scenario{Name: "L1", Make: func(cfg Cfg) (func(), *Spec) {
+		sp := &Spec{Closes: -1}
+		return func() {
+			ml := logger.NewMemLogger().SetTrace(true)
+			sl := logger.NewStdLogger().SetTrace(true)
+			sl.SetFlags(0)
+			done := make(chan struct{}, 8)
+			spawn("L-a", done, func() { ml.Infof("a %d", 1); ml.Errorf("a %d", 2); sl.Tracef("std a") })
+			spawn("L-b", done, func() { ml.Tracef("b %d", 1); ml.Infof("b %d", 2); sl.Errorf("std b") })
+			spawn("L-c", done, func() { _ = ml.String(); sl.Infof("std c"); _ = ml.String() })
+			join(done, 3)
+			vsched.Emit(Mon, "log "+fmt.Sprint(len(ml.String())))
+		}, sp
+	}})
+
+	// S1L: S1 with a MemLogger attached to the service, so that every log call of every thread is raced too.
+	reg(&Scenario{Name: "S1L", Make: func(cfg Cfg) (func(), *Spec) {
+		sp := &Spec{Shutdown: true, Closes: 1}
+		return func() {
+			w := NewWorld(cfg)
+			w.S.SetLogger(logger.NewMemLogger().SetTrace(true))
+			sdone := make(chan struct{}, 1)
+			w.StartServe(sdone)
+			done := make(chan struct{}, 4)
+			spawn("N", done, func() { w.Req("get."+w.A("1"), "R1") })
+			spawn("A", done, func() { Guard("TokenEvent", func() { w.S.TokenEvent("c1", nil) }) })
+			spawn("X", done, func() { shutdown(w) })
+			join(done, 3)
 			vsched.Recv(sdone)
 			vsched.AwaitQuiescence()
 		}, sp
